@@ -27,7 +27,7 @@ import (
 	"strings"
 )
 
-func init() { modes["c15.splatply"] = c15SplatPly }
+func init() { modes["c15.splatply"] = c15SplatPly; modes["c15.spzvalidate"] = c15SpzValidate }
 
 func c15consts(repo string) (map[string]string, error) {
 	fset := token.NewFileSet()
@@ -401,5 +401,155 @@ func c15SplatPly(repo, out string, args []string) error {
 	fmt.Fprintf(&sb, "def restCount : Nat := %d\ndef restAttrFormat : String := %s\ndef restPropFormat : String := %s\ndef restType : String := %s\n\n", rest.count, c15str(rest.attrFmt), c15str(rest.propFmt), c15str(rest.typ))
 	fmt.Fprintf(&sb, "/-- `defaultReader.LoadUnspecifiedProperties`: a property no reader claims is loaded as a scalar attribute of its own name -/\ndef readerLoadsUnspecified : Bool := %v\n\n", loadUnspecified)
 	sb.WriteString("end PolyVerif.Gen.SplatPlyTable\n")
+	return os.WriteFile(out, []byte(sb.String()), 0o644)
+}
+
+// ---- c15.spzvalidate: the guards of spz Header.Validate as data -------------------------------------------------------
+//   formats/spz/header.go   func (pgh Header) Validate() error: a sequence of
+//       if <guard> [|| <guard>] { return fmt.Errorf(...) }      ...      return nil
+//   where <guard> is   pgh.<Field> <op> <int literal | constant>   (constants: `const` in the function body or at
+//   package level of header.go).  Emitted: the guards in order as (field, operator, value).  Any other shape is an error.
+
+func c15intConst(e ast.Expr, consts map[string]string) (string, error) {
+	switch v := e.(type) {
+	case *ast.BasicLit:
+		if v.Kind != token.INT {
+			return "", fmt.Errorf("literal %s is not an int", v.Value)
+		}
+		n, err := strconv.ParseInt(v.Value, 0, 64)
+		if err != nil {
+			return "", err
+		}
+		return fmt.Sprint(n), nil
+	case *ast.Ident:
+		if s, ok := consts[v.Name]; ok {
+			return s, nil
+		}
+		return "", fmt.Errorf("unknown constant %s", v.Name)
+	}
+	return "", fmt.Errorf("unexpected operand %T", e)
+}
+
+func c15collectIntConsts(specs []ast.Spec, consts map[string]string) {
+	for _, sp := range specs {
+		vs, ok := sp.(*ast.ValueSpec)
+		if !ok {
+			continue
+		}
+		for i, n := range vs.Names {
+			if i < len(vs.Values) {
+				if s, err := c15intConst(vs.Values[i], consts); err == nil {
+					consts[n.Name] = s
+				}
+			}
+		}
+	}
+}
+
+func c15guards(e ast.Expr, recv string, consts map[string]string) ([][3]string, error) {
+	be, ok := e.(*ast.BinaryExpr)
+	if !ok {
+		return nil, fmt.Errorf("guard is %T, expected a comparison", e)
+	}
+	if be.Op == token.LOR {
+		a, err := c15guards(be.X, recv, consts)
+		if err != nil {
+			return nil, err
+		}
+		b, err := c15guards(be.Y, recv, consts)
+		if err != nil {
+			return nil, err
+		}
+		return append(a, b...), nil
+	}
+	switch be.Op {
+	case token.LSS, token.GTR, token.LEQ, token.GEQ, token.NEQ, token.EQL:
+	default:
+		return nil, fmt.Errorf("unexpected operator %s", be.Op)
+	}
+	sel, ok := be.X.(*ast.SelectorExpr)
+	if !ok {
+		return nil, fmt.Errorf("left operand is not %s.<Field>", recv)
+	}
+	if id, ok := sel.X.(*ast.Ident); !ok || id.Name != recv {
+		return nil, fmt.Errorf("left operand is not a field of the receiver")
+	}
+	val, err := c15intConst(be.Y, consts)
+	if err != nil {
+		return nil, err
+	}
+	return [][3]string{{sel.Sel.Name, be.Op.String(), val}}, nil
+}
+
+func c15SpzValidate(repo, out string, args []string) error {
+	fset := token.NewFileSet()
+	f, err := parser.ParseFile(fset, filepath.Join(repo, "formats", "spz", "header.go"), nil, 0)
+	if err != nil {
+		return err
+	}
+	consts := map[string]string{}
+	for _, d := range f.Decls {
+		if gd, ok := d.(*ast.GenDecl); ok && gd.Tok == token.CONST {
+			c15collectIntConsts(gd.Specs, consts)
+		}
+	}
+	var guards [][3]string
+	found := false
+	for _, d := range f.Decls {
+		fd, ok := d.(*ast.FuncDecl)
+		if !ok || fd.Name.Name != "Validate" || fd.Recv == nil || len(fd.Recv.List) != 1 || len(fd.Recv.List[0].Names) != 1 {
+			continue
+		}
+		recv := fd.Recv.List[0].Names[0].Name
+		found = true
+		n := len(fd.Body.List)
+		for i, st := range fd.Body.List {
+			switch v := st.(type) {
+			case *ast.DeclStmt:
+				gd, ok := v.Decl.(*ast.GenDecl)
+				if !ok || gd.Tok != token.CONST {
+					return fmt.Errorf("Validate: unexpected declaration")
+				}
+				c15collectIntConsts(gd.Specs, consts)
+			case *ast.IfStmt:
+				if v.Init != nil || v.Else != nil || len(v.Body.List) != 1 {
+					return fmt.Errorf("Validate: if statement %d is not `if guard { return err }`", i)
+				}
+				if _, ok := v.Body.List[0].(*ast.ReturnStmt); !ok {
+					return fmt.Errorf("Validate: if body %d does not return", i)
+				}
+				g, err := c15guards(v.Cond, recv, consts)
+				if err != nil {
+					return fmt.Errorf("Validate: guard %d: %w", i, err)
+				}
+				guards = append(guards, g...)
+			case *ast.ReturnStmt:
+				if i != n-1 || len(v.Results) != 1 {
+					return fmt.Errorf("Validate: unexpected return")
+				}
+				if id, ok := v.Results[0].(*ast.Ident); !ok || id.Name != "nil" {
+					return fmt.Errorf("Validate: final return is not nil")
+				}
+			default:
+				return fmt.Errorf("Validate: unexpected statement %T", st)
+			}
+		}
+	}
+	if !found || len(guards) == 0 {
+		return fmt.Errorf("header.go: Header.Validate not found")
+	}
+	var sb strings.Builder
+	sb.WriteString("/- GENERATED by /verif/go/facts c15.spzvalidate from formats/spz/header.go — do not edit. -/\n")
+	sb.WriteString("namespace PolyVerif.Gen.SpzValidate\n\n")
+	sb.WriteString("/-- the guards of `Header.Validate` in source order: the header is rejected iff one of `field op value` holds -/\n")
+	sb.WriteString("def guards : List (String × String × Nat) := [\n")
+	for i, g := range guards {
+		sep := ","
+		if i == len(guards)-1 {
+			sep = ""
+		}
+		fmt.Fprintf(&sb, "  (%s, %s, %s)%s\n", c15str(g[0]), c15str(g[1]), g[2], sep)
+	}
+	sb.WriteString("]\n\nend PolyVerif.Gen.SpzValidate\n")
 	return os.WriteFile(out, []byte(sb.String()), 0o644)
 }
